@@ -559,6 +559,8 @@ def run(ctx):
 
 
 def replay(ctx, payload):
+    if translate.is_link_replay(payload) and not payload.get("failing_input"):
+        return translate.replay(ctx, payload, "C13")  # a replay file written for a broken translation tie
     c = payload.get("case") or payload.get("failing_input")
     impl = impl_crit(c) if c["type"] == "crit" else impl_spsa(c)
     print("implementation:", json.dumps(impl if c["type"] == "crit" else [o["answer"] for o in impl]))
